@@ -183,10 +183,10 @@ def build(case):
 
 # ----------------------------------------------------------------------------- bands
 @st.composite
-def band(draw, f):
+def band(draw, f, kinds=("default", "random", "grid", "grid", "empty", "single", "outside")):
     """(fmin, fmax, label): default, random, exactly on grid points, empty, single point,
     outside the grid."""
-    k = draw(st.sampled_from(["default", "random", "grid", "grid", "empty", "single", "outside"]))
+    k = draw(st.sampled_from(list(kinds)))
     n = len(f)
     if k == "default":
         return {"fmin": 0.0, "fmax": float("inf"), "band": k}
